@@ -114,6 +114,20 @@ func scenarioC18(r *Run) {
 				continue
 			}
 			sm.m1, sm.ms, sm.desc = rc.M1, rc.MS, "decoded "+spec.Kind.String()
+			if t.Bool(1, 5, "c18.rawonly") {
+				// a message object assembled from stored raw header buckets:
+				// the raw bytes are set, the parsed maps are not
+				if sm.m1 != nil {
+					sm.m1.Headers.Protected, sm.m1.Headers.Unprotected = nil, nil
+				} else {
+					sm.ms.Headers.Protected, sm.ms.Headers.Unprotected = nil, nil
+					for _, sg := range sm.ms.Signatures {
+						sg.Headers.Protected, sg.Headers.Unprotected = nil, nil
+					}
+				}
+				sm.desc = "raw-only " + spec.Kind.String()
+				r.Probe("shared-message-raw-buckets-only")
+			}
 		}
 		sm.vs = r.verifiersFor(spec, false)
 		msgs = append(msgs, sm)
